@@ -385,6 +385,10 @@ pub fn hint(huge: bool) -> BoxedStrategy<Hint> {
             2 => Just(Hint::LowerOnly),
             3 => Just(Hint::UpperOnly),
             2 => (0u8..4, 0u8..6).prop_map(|(a, b)| Hint::Loose(a, b)),
+            3 => (1u8..7).prop_map(Hint::LowerShort),
+            1 => Just(Hint::Half),
+            2 => Just(Hint::FreshLower),
+            1 => Just(Hint::FreshBounds),
             2 => (10u8..17).prop_map(Hint::UpperPow),
             2 => (0u8..4).prop_map(Hint::UpperHuge),
         ]
@@ -396,6 +400,10 @@ pub fn hint(huge: bool) -> BoxedStrategy<Hint> {
             2 => Just(Hint::LowerOnly),
             3 => Just(Hint::UpperOnly),
             2 => (0u8..4, 0u8..6).prop_map(|(a, b)| Hint::Loose(a, b)),
+            3 => (1u8..7).prop_map(Hint::LowerShort),
+            1 => Just(Hint::Half),
+            2 => Just(Hint::FreshLower),
+            1 => Just(Hint::FreshBounds),
             1 => (10u8..13).prop_map(Hint::UpperPow),
         ]
         .boxed()
